@@ -466,6 +466,8 @@ class Symex:
             pb = fn.d["promoted"][c["promoted"]]
             return self.run_promoted(fn, st, pb)
         if "uneval" in c:
+            if "uval" in c:
+                return ("const", c["uval"])       # a named integer constant (block size, limit): its value
             return ("constitem", c["uneval"], c.get("text"))
         return ("constval", c["ty"], c.get("text"))
 
